@@ -357,6 +357,24 @@ pub fn gen_group(rng: &mut Rng, u: &Universe, nvars: u32, depth: u32, scoped: bo
         };
         elems.push(e);
     }
+    if depth >= 1 && rng.chance(1, 14) {
+        // two sub-selects over the same (satisfiable) inner pattern whose modifiers differ in one detail, side by side in
+        // a UNION or joined: anything that identifies a sub-plan by a lossy summary of its modifiers confuses them
+        let inner = Pat::Group(vec![Pat::Bgp(vec![gen_triple(rng, u, nvars)])]);
+        let mut vs = Vec::new();
+        pat_vars(&inner, &mut vs);
+        *fresh += 1;
+        let spec = gen_spec(rng, &vs, *fresh, false, false);
+        let a = Pat::Sub(spec, Box::new(inner));
+        let b = near_copy(rng, u, &a);
+        let (a, b) = if rng.chance(1, 2) { (a, b) } else { (b, a) };
+        if rng.chance(2, 3) {
+            elems.push(Pat::Union(vec![Pat::Group(vec![a]), Pat::Group(vec![b])]));
+        } else {
+            elems.push(a);
+            elems.push(b);
+        }
+    }
     if depth >= 1 && rng.chance(1, 10) {
         // a joined near-copy of one of the blocks
         let k = rng.below(elems.len());
